@@ -422,7 +422,15 @@ func (c *copier) copy(ctx context.Context, src, srcComponents, target string, ov
 	case (fi.Mode() & os.ModeDevice) == os.ModeDevice,
 		(fi.Mode() & os.ModeNamedPipe) == os.ModeNamedPipe,
 		(fi.Mode() & os.ModeSocket) == os.ModeSocket:
-		if err := copyDevice(target, fi); err != nil {
+		link, err := getLinkSource(target, fi, c.inodes)
+		if err != nil {
+			return errors.Wrap(err, "failed to get hardlink")
+		}
+		if link != "" {
+			if err := os.Link(link, target); err != nil {
+				return errors.Wrap(err, "failed to create hard link")
+			}
+		} else if err := copyDevice(target, fi); err != nil {
 			return errors.Wrapf(err, "failed to create device")
 		}
 	}
